@@ -55,7 +55,29 @@ func receiptCases(r *rand.Rand, tag string, n int) []receiptCase {
 			out = append(out, rc)
 		}
 		cp := func(b []byte) []byte { return append([]byte(nil), b...) }
-		switch i % 14 {
+		switch i % 18 {
+		case 14:
+			mk("hash-junk-prepended-36", text, append([]byte{0xde, 0xad, 0xbe, 0xef}, hash...), sig)
+		case 15:
+			mk("hash-junk-prepended-64", text, append(cp(hash), hash...), sig)
+		case 16:
+			mk("hash-junk-appended-33", text, append(cp(hash), 0), sig)
+		case 17:
+			// a digest whose leading zero byte is stripped (31 bytes): the text is searched for
+			t2, h2 := text, hash
+			for k := 0; k < 100000 && h2[0] != 0; k++ {
+				t2 = fmt.Sprintf(`{"id":"%s-%d","amount":%d,"n":%d}`, tag, i, k, k)
+				h2 = xcrypto.Keccak256([]byte(t2))
+			}
+			if h2[0] == 0 {
+				s2, err := xcrypto.Sign(key, h2)
+				if err != nil {
+					panic(err)
+				}
+				mk("hash-leading-zero-stripped-31", t2, h2[1:], s2)
+			} else {
+				mk("hash-truncated-31", text, hash[:31], sig)
+			}
 		case 0, 1, 2, 3:
 			mk("valid", text, hash, sig)
 		case 4:
@@ -279,7 +301,7 @@ func queueFull(c *check.Ctx, bin string, st *c19stats) bool {
 		c.Inconc(err.Error())
 		return false
 	}
-	cases := receiptCases(rand.New(rand.NewSource(c.Seed)), "q", 14*11)
+	cases := receiptCases(rand.New(rand.NewSource(c.Seed)), "q", 18*9)
 	var valid []receiptCase
 	for _, rc := range cases {
 		if rc.Valid {
@@ -352,9 +374,9 @@ func partReceipts(c *check.Ctx, a *acc) {
 	}
 	var scs []sc
 	for i, mode := range []string{"ok", "ok", "slow", "500", "down", "ok", "hang", "drop"} {
-		n := c.Pick(56, 280)
+		n := c.Pick(72, 360)
 		if mode == "hang" || mode == "drop" {
-			n = 28 // each forward takes seconds
+			n = 36 // each forward takes seconds
 		}
 		scs = append(scs, sc{mode, []int{1, 4, 2, 3, 2, 16, 4, 4}[i], n})
 	}
